@@ -520,6 +520,7 @@ SG = "src/hypergraph/runners/sync/executors/graph_node.py"
 AG = "src/hypergraph/runners/async_/executors/graph_node.py"
 SF = "src/hypergraph/runners/sync/executors/function_node.py"
 VARIANTS = [
+    Variant("constructor-rename-duplicates-unchecked", "src/hypergraph/nodes/_rename.py", sub_once(r"    renamed = tuple\(mapping\.get\(v, v\) for v in values\)\n    if len\(set\(renamed\)\) != len\(renamed\):\n.*?    return renamed, history\n", "    return tuple(mapping.get(v, v) for v in values), history\n"), {"C06.R5"}),
     Variant("resolver-walks-history", GN, replace_once("        # Batch-aware: parallel renames (e.g. a swap) must not chain onto each other\n        reverse_map = build_reverse_rename_map(self._rename_history, \"inputs\")\n        return reverse_map.get(param, param)", "        current = param\n        for entry in reversed(self._rename_history):\n            if entry.kind == \"inputs\" and entry.new == current:\n                current = entry.old\n        return current"), {"C06.R1", "C06.R2"}),
     Variant("reverse-map-updates-in-loop", RN, replace_once("            batch_updates[entry.new] = original\n        # Apply all updates from this batch at once\n        reverse_map.update(batch_updates)", "            reverse_map[entry.new] = original"), {"C06.R1"}),
     Variant("forward-map-inverts-reverse", CL, sub_once(r"    input_entries = \[e for e in rename_history if e\.kind == \"inputs\"\]\n    if not input_entries:\n        return \{\}\n.*?    return rename_map\n", "    return {v: k for k, v in build_reverse_rename_map(rename_history, \"inputs\").items()}\n"), {"C06.R7"}),
